@@ -5,7 +5,10 @@ import (
 	"fmt"
 	"math/rand"
 	"os"
+	"path/filepath"
 	"strings"
+	"sync"
+	"time"
 )
 
 // c12.go — C12 "Misused annotations stop generation; valid definitions are never refused".
@@ -92,12 +95,45 @@ func c12PluginObs(x *PluginResult, offs []C12Offender, goPlugin bool) map[string
 	return o
 }
 
-// DumpResults writes all case results to $VERIF_DUMP (debugging aid).
+// DumpResults writes all case results to $VERIF_DUMP_CASES (debugging aid).
 func DumpResults(run *Run) {
-	if p := os.Getenv("VERIF_DUMP"); p != "" {
+	if p := os.Getenv("VERIF_DUMP_CASES"); p != "" {
 		b, _ := json.MarshalIndent(run.Results, "", " ")
 		os.WriteFile(p, b, 0o644)
 	}
+}
+
+// c12Gen runs the five sebuf plugins (not protoc-gen-go, whose output C12 does not look at) on every request.
+func c12Gen(binDir string, reqs []*Request) []*GenOutput {
+	out := make([]*GenOutput, len(reqs))
+	var wg sync.WaitGroup
+	sem := make(chan struct{}, 12)
+	for i, r := range reqs {
+		wg.Add(1)
+		go func(i int, r *Request) {
+			defer wg.Done()
+			sem <- struct{}{}
+			defer func() { <-sem }()
+			g := &GenOutput{Req: r, Results: map[string]*PluginResult{}}
+			out[i] = g
+			b, err := BuildDescriptors(r)
+			if err != nil {
+				g.BuildErr = err.Error()
+				return
+			}
+			g.Built = b
+			tg := ToGenerate(r)
+			for _, p := range Plugins {
+				param := ""
+				if p == "go-http" || p == "go-client" {
+					param = "paths=source_relative"
+				}
+				g.Results[p] = RunPlugin(filepath.Join(binDir, "protoc-gen-"+p), p, MakeCGR(b.All, tg, param), 20*time.Second, 4096)
+			}
+		}(i, r)
+	}
+	wg.Wait()
+	return out
 }
 
 func CheckC12(run *Run) {
@@ -122,7 +158,7 @@ func CheckC12(run *Run) {
 	for i, c := range cases {
 		reqs[i] = c.Req
 	}
-	gens := ParallelGen(run.BinDir, reqs)
+	gens := c12Gen(run.BinDir, reqs)
 	var ccs []CoqCase
 	var crs []*CaseResult
 	for i, c := range cases {
